@@ -24,7 +24,7 @@ ESHAPES = {"scalar": (), "vec2": (2,), "mat32": (3, 2)}
 DTYPES = ("int64", "float64", "bool")
 # the five construction paths; the three flat ones take different constructor branches
 # (`lengths == lengths[0]` is an array for an ndarray / a list of numpy ints, plain False for a list of python ints)
-CONSTRUCTIONS = ("nested", "arrays", "flat_nd", "flat_pyint", "flat_npint", "flat_F")
+CONSTRUCTIONS = ("nested", "arrays", "flat_nd", "flat_pyint", "flat_npint", "flat_F", "flat_narrow")
 
 
 # --------------------------------------------------------------------------------------------------
@@ -70,6 +70,12 @@ def build(rows, how, **kw):
     flat = np.concatenate(rows)
     if how == "flat_nd":
         return _with_callers_lengths(flat, lengths, kw)
+    if how == "flat_narrow":
+        # the lengths in the narrowest signed integer type that holds each of them (a compactly stored lengths table);
+        # their running total need not fit that type
+        top = max(lengths) if lengths else 0
+        dt = np.int8 if top <= 127 else np.int16 if top <= 32767 else np.int32
+        return ra.RaggedArray(flat, lengths=np.array(lengths, dtype=dt), **kw)
     if how == "flat_pyint":
         return ra.RaggedArray(flat, lengths=[int(x) for x in lengths], **kw)
     if how == "flat_npint":
